@@ -367,6 +367,9 @@ def rule_awake(ctx):
 
 def run(ctx):
     from ..report import SubCtx
+    from . import c12
+    sub_c12 = SubCtx(ctx, 'C05.beats', 'a routine converts its deltas through the beats/seconds map of its clock: the affine map and its readers, as decided for C12')
+    c12.rule_affine(sub_c12)
     from . import c09
     sub = SubCtx(ctx, 'C05.queue', 'logical time is exact only if the scheduler queues hand out the earliest entry: the priority-queue contract of the task queue (heap shape on every path, counters, re-insertion), as decided for C09')
     c09.rule_inv(sub)
